@@ -432,7 +432,28 @@ def rule_wrapper_hygiene(check, rule):
             dels = [n for stmt in body[uw + 1:] for n in ast.walk(stmt) if isinstance(n, ast.Delete)
                     and any(isinstance(t, ast.Attribute) and t.attr == attr and isinstance(t.value, ast.Name) and t.value.id == selfn for t in n.targets)]
             key = '%s|del:%s' % (ci.key, attr)
-            if dels:
+            skipped = None
+            for d in dels:
+                # the deletion must not be skippable: inside a try whose handler absorbs AttributeError, an earlier
+                # statement of the same try body that can raise it (another `del self.x`) jumps over this one
+                par = getattr(d, '_parent', None)
+                if isinstance(par, ast.Try) and d in par.body:
+                    for prev in par.body[:par.body.index(d)]:
+                        if isinstance(prev, ast.Delete) or any(isinstance(x, ast.Attribute) and isinstance(x.ctx, (ast.Load, ast.Del))
+                                                                for x in ast.walk(prev)):
+                            skipped = (d, prev)
+                    tgts = [t for t in d.targets]
+                    if len(tgts) > 1:
+                        idx = [i for i, t in enumerate(tgts) if isinstance(t, ast.Attribute) and t.attr == attr][0]
+                        if idx > 0:
+                            skipped = (d, d)
+            if dels and skipped is not None and len(dels) == 1:
+                check.violation(rule, site_of(init, skipped[0]), 'the deletion of the copied %s shares a try block with an earlier statement (%s) that '
+                                'raises AttributeError when its attribute is absent: the deletion is then skipped and the copied instance attribute '
+                                'shadows the class-level %s' % (attr, norm(skipped[1])[:50], 'descriptor' if attr == '__signature__' else 'forger'),
+                                key=key, witness='emulate=True forger on a function that carries its own __signature__ but no forger: '
+                                                 'inspect.signature shows the raw signature')
+            elif dels:
                 check.holds(rule, site_of(init, dels[0]), 'the copied instance attribute %s is deleted after update_wrapper' % attr, key=key)
             else:
                 check.violation(rule, site_of(init, init.node), '%s.__init__ keeps the %s copied from the wrapped object: it shadows the class-level '
